@@ -16,13 +16,19 @@
     (C08_subword_spaces).  The converse is not claimed: juxtaposed literals `foo(bar)` are rejected
     with the same error although nothing is space-separated (known converse finding
     `juxtaposed_literals_rejected`).
-    The classes decided by the regex and DFA ambiguity checks are tied (T1) and judged on planted
-    mistakes by lib/vf/checks/c08.py. *)
+    Since the repair of finding N2 (the walk of the within-word check hands the unbounded item
+    only to its own follow set) also the placeholder class, both directions: on a grammar the
+    checker accepts, the regex stage rejects the validated tree with UnboundedMatchable iff
+    [placeholder_not_last] holds of the source grammar, and succeeds otherwise (C08_placeholder);
+    the walk itself is characterised on the follow table (C08_tail_only_decides).
+    The class decided by the DFA ambiguity check is tied (T1) and judged on planted mistakes by
+    lib/vf/checks/c08.py (C08_ambiguity_* below are about the automaton). *)
 From CG Require Import Base.Prelude Model.Ast Model.Check Spec.Choice Spec.Mistakes Proofs.CheckMistakes.
 From CG Require Import Proofs.CheckLemmas Proofs.CheckCycle Proofs.CheckFront Proofs.CheckCycleSpec.
 From CG Require Import Proofs.CheckSpacesSpec.
 From CG Require Import Model.Dfa Model.Ambiguity.
 From CG Require Proofs.AmbWalk.
+From CG Require Model.Regex Proofs.RegexNoPanic Proofs.TailOnlySpec Proofs.PhExpr Proofs.PhSpec Proofs.PhTree.
 
 Theorem C08_no_call_variant :
   forall builtins g sh,
@@ -369,3 +375,61 @@ Example ex_C08_inhabited :
   /\ is_ok (from_grammar (fun _ => []) ex_clean Bash) = true.
 Proof. vm_compute. repeat split; reflexivity. Qed.
 Print Assumptions ex_C08_inhabited.
+
+(** *** The placeholder class (regex stage) *)
+
+(** what the repaired walk of [check_ambiguous_inputs_tail_only_subword] decides on the regex of a
+    word: no reachable unbounded item has anything but the end marker in its follow set *)
+Theorem C08_tail_only_decides :
+  forall r, RegexNoPanic.pool_ok r ->
+    (Regex.check_tail_only r = Ok tt <->
+     forall p, TailOnlySpec.reachable_pos r p -> ~ TailOnlySpec.bad_pos r p).
+Proof. exact TailOnlySpec.check_tail_only_decides. Qed.
+Check C08_tail_only_decides :
+  forall r, RegexNoPanic.pool_ok r ->
+    (Regex.check_tail_only r = Ok tt <->
+     forall p, TailOnlySpec.reachable_pos r p -> ~ TailOnlySpec.bad_pos r p).
+Print Assumptions C08_tail_only_decides.
+
+(** on an accepted grammar whose operators all have operands (true of everything the parser
+    returns), the regex stage rejects exactly the grammars with a placeholder that is not last *)
+Theorem C08_placeholder :
+  forall builtins g sh v,
+    from_grammar builtins g sh = Ok v -> PhSpec.grammar_ops_nonempty g = true ->
+    (placeholder_not_last builtins g sh = true <->
+     exists a b, Regex.from_valid_expr (v_expr v) = Err (Regex.UnboundedMatchable a b)) /\
+    ((exists rp, Regex.from_valid_expr (v_expr v) = Ok rp) \/
+     exists a b, Regex.from_valid_expr (v_expr v) = Err (Regex.UnboundedMatchable a b)).
+Proof. exact PhTree.placeholder_decided. Qed.
+Check C08_placeholder :
+  forall builtins g sh v,
+    from_grammar builtins g sh = Ok v -> PhSpec.grammar_ops_nonempty g = true ->
+    (placeholder_not_last builtins g sh = true <->
+     exists a b, Regex.from_valid_expr (v_expr v) = Err (Regex.UnboundedMatchable a b)) /\
+    ((exists rp, Regex.from_valid_expr (v_expr v) = Ok rp) \/
+     exists a b, Regex.from_valid_expr (v_expr v) = Err (Regex.UnboundedMatchable a b)).
+Print Assumptions C08_placeholder.
+
+(** Non-vacuity: `cmd x<U>y;` has the class and is rejected by the regex stage; `cmd x(<U>|a(b|c));`
+    (the shape of finding N2: a placeholder beside a longer alternative) has not and passes. *)
+Definition ex_ph_word (cs : list expr) : grammar :=
+  [ CallVariant "cmd" ex_sp (Subword (Sequence cs ex_sp) 0 ex_sp) ].
+Definition ex_ph_bad : grammar :=
+  ex_ph_word [Terminal "x" None 0 ex_sp; NontermRef "U" 0 ex_sp; Terminal "y" None 0 ex_sp].
+Definition ex_ph_n2 : grammar :=
+  ex_ph_word [Terminal "x" None 0 ex_sp;
+              Alternative [NontermRef "U" 0 ex_sp;
+                           Sequence [Terminal "a" None 0 ex_sp;
+                                     Alternative [Terminal "b" None 0 ex_sp; Terminal "c" None 0 ex_sp] ex_sp] ex_sp]
+                          ex_sp].
+Definition regex_verdict (g : grammar) : option bool :=
+  match from_grammar (fun _ => []) g Bash with
+  | Ok v => Some (is_ok (Regex.from_valid_expr (v_expr v)))
+  | _ => None
+  end.
+Example ex_C08_placeholder_inhabited :
+  PhSpec.grammar_ops_nonempty ex_ph_bad = true /\ PhSpec.grammar_ops_nonempty ex_ph_n2 = true
+  /\ present (fun _ => []) ex_ph_bad Bash = [MPlaceholderNotLast] /\ regex_verdict ex_ph_bad = Some false
+  /\ present (fun _ => []) ex_ph_n2 Bash = [] /\ regex_verdict ex_ph_n2 = Some true.
+Proof. vm_compute. repeat split; reflexivity. Qed.
+Print Assumptions ex_C08_placeholder_inhabited.
